@@ -25,3 +25,22 @@ package name
 //@   ensures [name-first] calls(replaceEmptyNameField) == old(calls(replaceEmptyNameField)) + 1 && lastarg(replaceEmptyNameField, 0) == req && lastarg(replaceEmptyNameField, 1) == name
 //@   ensures [handled-once] cbcalls() == n0 + 1 && cbfn(n0) == handler && cbargIface(n0, 0) == ctx && cbargIface(n0, 1) == req
 //@   ensures [answer] resp == cbresIface(n0, 0) && err == cbresIface(n0, 1)
+//@
+//@ // streams: every message the handler receives went through the same replacement, after it was received successfully
+//@ callback ServerStream.RecvMsg: modifies all
+//@ func (*absentNameReplaceServerStream).RecvMsg(m) (err)
+//@   requires recv != nil && !isnil(recv.ServerStream)
+//@   track RecvMsg
+//@   track replaceEmptyNameField
+//@   letold nm := recv.name
+//@   ensures [received-first] calls(RecvMsg) == old(calls(RecvMsg)) + 1 && lastarg(RecvMsg, 1) == m
+//@   ensures [error-as-is] lastcall(RecvMsg) != nil ==> err == lastcall(RecvMsg) && calls(replaceEmptyNameField) == old(calls(replaceEmptyNameField))
+//@   ensures [named] lastcall(RecvMsg) == nil ==> err == nil && calls(replaceEmptyNameField) == old(calls(replaceEmptyNameField)) + 1 && lastarg(replaceEmptyNameField, 0) == m
+//@
+//@ callback StreamHandler: modifies all
+//@ func IfAbsentStreamInterceptor$1(srv, ss, info, handler) (err)
+//@   requires handler != nil
+//@   letold n0 := cbcalls()
+//@   // (what the wrapper holds cannot be stated after the call: the handler may write anything it can reach)
+//@   ensures [handled-once] cbcalls() == n0 + 1 && cbfn(n0) == handler && cbargIface(n0, 0) == srv && istype(cbargIface(n0, 1), *absentNameReplaceServerStream)
+//@   ensures [answer] err == cbresIface(n0, 0)
